@@ -5,6 +5,7 @@ import (
 	"encoding/binary"
 	"fmt"
 	"math"
+	"math/bits"
 	"sync/atomic"
 
 	"github.com/iotaledger/iota.go/consts"
@@ -19,7 +20,13 @@ import (
 var c11Sched func(c *core.Ctx, nontriv *atomic.Int64) bool
 
 func init() {
-	core.Register(core.Check{ID: "C11", Level: "exploration", Run: func(c *core.Ctx) { runC11(c); historyPass(c, "C11"); reentrancyPass(c, "C11") }})
+	core.Register(core.Check{ID: "C11", Level: "exploration", Run: func(c *core.Ctx) {
+		runC11(c)
+		standalonePass(c, "C11", "standalone-powv1")
+		historyPass(c, "C11")
+		reentrancyPass(c, "C11")
+		arch386Pass(c, "C11")
+	}})
 }
 
 // refPowZeros: trailing zero trits of Curl-P-81(b1t6(BLAKE2b-256(data)) || b1t6(nonce LE) || 000), own chain.
@@ -51,6 +58,10 @@ func refScoreV1(msg []byte) float64 {
 }
 
 // laneState builds bit planes in which lane j has exactly zeros[j] trailing zero trits.
+// powW is the number of lanes of a batch: one per bit of a uint (64, or 32 on 32-bit targets). Lane arrays of the harness
+// always have 64 entries; entries >= powW do not exist for the code under test.
+const powW = bits.UintSize
+
 func c11LaneState(zeros *[64]int) (l, h [consts.HashTrinarySize]uint) {
 	for j := 0; j < 64; j++ {
 		z := zeros[j]
@@ -82,10 +93,10 @@ func runC11(c *core.Ctx) {
 	var nontriv atomic.Int64
 
 	// ---- (a) lane test ----
-	lanes := []int{0, 1, 31, 32, 62, 63}
+	lanes := []int{0, 1, powW/2 - 1, powW / 2, powW - 2, powW - 1}
 	if th {
 		lanes = nil
-		for j := 0; j < 64; j++ {
+		for j := 0; j < powW; j++ {
 			lanes = append(lanes, j)
 		}
 	}
@@ -97,8 +108,8 @@ func runC11(c *core.Ctx) {
 		}
 		check := func(zeros *[64]int, what string) {
 			l, h := c11LaneState(zeros)
-			want := 64
-			for j := 0; j < 64; j++ {
+			want := powW
+			for j := 0; j < powW; j++ {
 				if zeros[j] >= n {
 					want = j
 					break
@@ -117,7 +128,7 @@ func runC11(c *core.Ctx) {
 			z[j] = base
 		}
 		check(&z, "background")
-		for j := 0; j < 64; j++ {
+		for j := 0; j < powW; j++ {
 			for _, cl := range classes {
 				if cl < 0 || cl > 243 {
 					continue
